@@ -306,9 +306,11 @@ def h2_h3(prog: Program, chk: Check) -> None:
                    for c in walk_local(bp.node) if isinstance(c, ast.Call)
                    and (dotted(c.func) or "").endswith("swapaxes") and len(c.args) == 3
                    and all(isinstance(a, ast.Constant) for a in c.args[1:]))
-    chk.add("H2", bp, f"leg swaps {swaps}", swaps == [(0, 1), (2, 3)],
-            "bond legs and system legs exchanged" if swaps == [(0, 1), (2, 3)] else
-            "the backward MPO must swap (past,future) bond legs and (in,out) system legs")
+    # which pairs are exchanged here and which by _apply_pt_mpos(reverse=True) is H7's business
+    chk.add("H2", bp, f"leg swaps {swaps}", all(sw in ((0, 1), (2, 3)) for sw in swaps),
+            "pairs of bond / system legs (the parity per pair is judged by H7)"
+            if all(sw in ((0, 1), (2, 3)) for sw in swaps) else
+            "a swap that mixes bond and system legs")
     # ---- backward sequence of system superoperators inside the loop
     loop_nodes = [n for n in g.nodes if n.kind == "iter" and n.id in back
                   and "reversed" in norm(n.ast.iter)]
@@ -666,6 +668,86 @@ def h4(prog: Program, chk: Check) -> None:
 
 
 
+def h7(prog: Program, chk: Check) -> None:
+    chk.rule("H7", "in the backward pass every environment MPO acts transposed exactly once - on its "
+             "pair of system legs and on its pair of bond legs: either the tensors handed to "
+             "_apply_pt_mpos are leg-swapped copies (_get_pt_mpos_backprop) or _apply_pt_mpos "
+             "connects them the other way round when told to run backwards, not both and not "
+             "neither (two transpositions cancel: the adjoint vector would pass through the "
+             "untransposed MPOs, invisible for couplings whose MPOs are symmetric in the system "
+             "legs); in the forward pass neither happens. The leg roles of _apply_pt_mpos are "
+             "read under the path condition of the flags each call site passes", floor=4)
+    from rules import c03
+    ap = prog.unit("system_dynamics:_apply_pt_mpos")
+    names = c03._node_name_of_mpo(ap)
+    if not names:
+        raise AnalysisError("H7: no tn.Node(<mpo tensor>) in _apply_pt_mpos")
+    params = ap.params
+    bp = prog.unit("system_dynamics:_get_pt_mpos_backprop")
+    swaps = {tuple(sorted((c.args[1].value, c.args[2].value)))
+             for c in walk_local(bp.node) if isinstance(c, ast.Call)
+             and (dotted(c.func) or "").endswith("swapaxes") and len(c.args) == 3
+             and all(isinstance(a, ast.Constant) for a in c.args[1:])}
+    u = prog.unit("gradient:compute_gradient_and_dynamics")
+    du = DefUse(u, CFG(u.node, exc_edges=False))
+    g = du.cfg
+    chk.saw(u, g)
+    chk.saw(ap)
+    cut, back = c18.split_forward_backward(g)
+    n = 0
+    for nd in g.nodes:
+        if nd.copy_of:
+            continue
+        for c in nd.calls():
+            if call_name(c) != "_apply_pt_mpos":
+                continue
+            n += 1
+            backward = nd.id in back
+            bound = {params[i]: a for i, a in enumerate(c.args) if i < len(params)}
+            bound.update({k.arg: k.value for k in c.keywords if k.arg})
+            flags = {p: v.value for p, v in bound.items()
+                     if isinstance(v, ast.Constant) and isinstance(v.value, bool)}
+            roles = c03._leg_roles(ap, names, flags=flags)
+            inv = {}
+            for ax, rs in roles.items():
+                for r in rs:
+                    inv.setdefault(r, set()).add(ax)
+            def one(role):
+                v = inv.get(role, set())
+                return next(iter(v)) if len(v) == 1 else None
+            sys_in, sys_out = one("SYS_IN"), one("SYS_OUT")
+            b_past, b_fut = one("BOND_PAST"), one("BOND_FUTURE")
+            if None in (sys_in, sys_out, b_past, b_fut):
+                raise AnalysisError(f"H7: leg roles of _apply_pt_mpos under {flags} not decided: "
+                                    f"{ {k: sorted(v) for k, v in roles.items()} }")
+            apply_sys = 1 if (sys_in, sys_out) == (3, 2) else (0 if (sys_in, sys_out) == (2, 3) else None)
+            apply_bond = 1 if (b_past, b_fut) == (1, 0) else (0 if (b_past, b_fut) == (0, 1) else None)
+            # where do the tensors of this call come from?
+            src_swapped = False
+            a = bound.get(params[2]) if len(params) > 2 else None
+            if isinstance(a, ast.Name):
+                for d in du.reaching(nd.id, a.id):
+                    if isinstance(d.value, ast.Call) and call_name(d.value) == "_get_pt_mpos_backprop":
+                        src_swapped = True
+            src_sys = 1 if (src_swapped and (2, 3) in swaps) else 0
+            src_bond = 1 if (src_swapped and (0, 1) in swaps) else 0
+            want = 1 if backward else 0
+            for pair, ap_par, src_par in (("system legs", apply_sys, src_sys),
+                                          ("bond legs", apply_bond, src_bond)):
+                ok = ap_par is not None and (ap_par + src_par) % 2 == want
+                chk.add("H7", u, f"{'backward' if backward else 'forward'} pass, {pair}: "
+                        f"{'swapped copies' if src_par else 'tensors as stored'}, connected "
+                        f"{'the other way round' if ap_par else 'as in the forward pass' if ap_par == 0 else '?'}"
+                        f" (flags {flags})", ok,
+                        f"transposed {'once' if want else 'not at all'}" if ok else
+                        (f"the {pair} are exchanged {ap_par + src_par if ap_par is not None else '?'} "
+                         f"time(s); the {'backward' if backward else 'forward'} pass needs "
+                         f"{'exactly one exchange (the transpose of the forward map)' if want else 'none'}"),
+                        c)
+    if n < 2:
+        raise AnalysisError(f"H7: only {n} _apply_pt_mpos call(s) in compute_gradient_and_dynamics")
+
+
 def run(prog: Program, chk: Check) -> None:
     chk.explanation = (
         "Decides the index maps and the mirror structure of the adjoint method: H1 polynomial "
@@ -687,3 +769,4 @@ def run(prog: Program, chk: Check) -> None:
     chk.call(h4, prog, chk)
     chk.call(h5, prog, chk)
     chk.call(h6, prog, chk)
+    chk.call(h7, prog, chk)
